@@ -11,7 +11,7 @@ return every restore is exact (`restoreSt_same`), and after an error nothing run
 The host panics of the model are: a nil cell under a typed pop, a nil return address, a bind on
 an empty scope stack.
 -/
-import ZygoVerif.Proofs.RunErr2
+import ZygoVerif.Proofs.RunErr
 import ZygoVerif.Proofs.C01VM
 set_option linter.unusedSimpArgs false
 set_option linter.unusedVariables false
@@ -255,6 +255,27 @@ theorem Safe.pure {α} (a : α) {s : St} (h : NoNil s) : Safe (pure a : M α) s 
 
 theorem Safe.err {α} (s : St) : Safe (VM.err : M α) s := by
   intro r s' hr; rw [Sim.run_err] at hr; cases hr; exact res_err
+
+theorem wrangle_frame (a b : Nat) (s : St) :
+    ((wrangleOptargs a b).run s).2.linear = s.linear ∧ ((wrangleOptargs a b).run s).2.suspended = s.suspended ∧
+      ((wrangleOptargs a b).run s).2.loopstack = s.loopstack := by
+  unfold wrangleOptargs
+  split
+  · exact ⟨rfl, rfl, rfl⟩
+  · split
+    · rw [run_bind]
+      have hp : ((popN (b - a)).run s).2.linear = s.linear ∧ ((popN (b - a)).run s).2.suspended = s.suspended ∧
+          ((popN (b - a)).run s).2.loopstack = s.loopstack := by
+        rw [Contain.run_popN]
+        split
+        · exact ⟨rfl, rfl, rfl⟩
+        · split <;> exact ⟨rfl, rfl, rfl⟩
+      rcases hr : (popN (b - a)).run s with ⟨r, s1⟩
+      rw [hr] at hp
+      cases r with
+      | ok xs => exact hp
+      | error e => exact hp
+    · exact ⟨rfl, rfl, rfl⟩
 
 theorem callFunction_frame (f k : Nat) (s s' : St) (r : Except Fault Unit) (h : (callFunction f k).run s = (r, s')) :
     s'.linear = s.linear ∧ s'.lazies = s.lazies := by
@@ -540,7 +561,6 @@ theorem prep_safe (n : Nat) (ih : AllSpec n) (ihs : SSpec n) (args : List Expr) 
         pushData (.lazy t.lazies.length)
         prepareArgs n f (i + 1) es : M Unit) s := by
       intro r s' hex
-      obtain ⟨s1, hw1, _, _, _, hk⟩ := prep_lazy_any e _ s s' r hw hok.1 hex
       -- the state after the push, explicitly
       rw [run_bind, run_get] at hex
       dsimp only at hex
